@@ -29,6 +29,8 @@ inductive Op where
   | rejectUnless (k : String)          -- return null unless the key is present
   | rejectIf (k : String) (v : V)      -- return null when bs[k] === v (scalar)
   | markdeep (k k2 : String) (v : V)   -- write k2 := v into every object reachable inside bs[k], in place
+  | pollute                            -- change a built-in of the runtime (`Array.prototype.zz = 1`): no effect on the result
+  | forin (k : String)                 -- bs[k] := the number of keys a `for … in` over `[1, 2]` visits (2 in a pristine runtime)
   | loop                               -- spin until the deadline
   | emitBad (kind : String)            -- emit a value that cannot be serialised (":type" a function, ":cycle" a value containing itself)
 
@@ -92,6 +94,8 @@ def Op.apply (o : Op) (bs : Bs) (em : List V) : Except Exit (Bs × List V) :=
     match lookup k bs with
     | some x => if scalarEq x v then .error .reject else .ok (bs, em)
     | none => .ok (bs, em)
+  | .pollute => .ok (bs, em)
+  | .forin k => .ok (insertB k (.num 2) bs, em)
   | .loop => .error .timeout
   | .emitBad k => .error (.badEmit k)
 
